@@ -57,7 +57,7 @@ CHECKS = {
          "For every packet and mode the vector-returning function's bytes are decoded strictly by the reference decoder (12-byte header, counts equal the entries walked with the OPT counted once, every RDLENGTH equal to what the type's schema consumes, nothing after the last entry, content equal to the packet). Every writer configuration must then produce exactly those bytes between its start offset and final position, leave every other byte untouched, return Err (never panic, never Ok) when capacity is short or the writer fails at any byte 0..len, and Ok when there is room; short writes (1/2/7 bytes per call) must be retried. The environment dimension (capacity, fault position) is enumerated completely for each packet.",
          "Packets: the <=1-deviation families plus a fixed stride through the 4-slot name-sharing space (stated in the evidence); the stride, not the writer dimension, is what is not complete.",
          "DESIGN.md section 3, C04"),
- "C11": ("exhaustive enumeration of parser-accepted inputs from four generators (every valid compression layout of 1715 reference packets, all 65536 flag words x OPT variants, reference encodings of the C02 space with OPT at every index, and the accepted members of C01's malformed-input sweeps), each parsed, re-serialised plain and compressed by the real code, re-parsed and compared",
+ "C11": ("exhaustive enumeration of parser-accepted inputs from four generators (every valid compression layout of 5000 reference packets, all 65536 flag words x OPT variants, reference encodings of the C02 space with OPT at every index, and the accepted members of C01's malformed-input sweeps), each parsed, re-serialised plain and compressed by the real code, re-parsed and compared",
          "For every accepted input both serialisations of the parsed packet must succeed and parse back to a packet equal in every observable field. The compression-layout generator is itself an exhaustive explorer over choice sequences (each name occurrence: k labels in place, then terminator or a pointer to any earlier position where the remaining labels begin, pointer-to-pointer included), so foreign layouts are covered completely for the bounded packets; the malformed-input sweeps supply odd-but-accepted messages (surplus RDATA, unknown types, empty RDATA).",
          "One known finding is listed (RCODE 11..15 without OPT re-emitted as 1): see known_findings.json. Information the library does not expose (OPT flag bits, the numeric value of reserved opcodes) is not compared.",
          "DESIGN.md section 3, C11"),
